@@ -41,6 +41,8 @@ def gen_case(rnd, tier, index):
     knobs = wbgen.draw_knobs(rnd)
     knobs['ranges'] = True
     spec = wbgen.generate(rnd, knobs)
+    if rnd.random() < 0.1:
+        wbgen.add_lookup_gadget(rnd, spec)        # a list no input feeds behind whole-column lookups
     dag = wbgen.Dag(spec)
     origin = rnd.choice(('nodata', 'nodata', 'xlsx'))
     cfg = {'origin': origin}
@@ -49,6 +51,8 @@ def gen_case(rnd, tier, index):
         return {'spec': spec, 'cfg': cfg, 'ops': []}
     n_out = rnd.choice((1, 1, 2, 3))
     outputs = rnd.sample(formulas, min(n_out, len(formulas)))
+    if spec.get('lookup_gadget') and rnd.random() < 0.8:
+        outputs = rnd.sample(spec['lookup_gadget'], min(len(spec['lookup_gadget']), rnd.choice((1, 2, 3))))
     pinned = set(spec.get('pinned', ()))
     anc = set()
     for o in outputs:
@@ -122,7 +126,7 @@ def gen_case(rnd, tier, index):
     for _ in range(rnd.choice((0, 0, 2, 5))):
         if rnd.random() < 0.5 and consts:
             a = rnd.choice(consts)
-            v = c01.draw_write(rnd, cur.get(a, dag.cell[a].get('v')))
+            v = c01.draw_write(rnd, cur.get(a, dag.cell[a].get('v')), dag.cell[a].get('w'))
             cur[a] = v
             ops.append({'op': 'set', 'a': a, 'v': v})
         else:
@@ -140,7 +144,7 @@ def gen_case(rnd, tier, index):
             if wbgen.is_formula_cell(dag.cell[a]):
                 v = draw_num(rnd)
             else:
-                v = c01.draw_write(rnd, cur.get(a, dag.cell[a].get('v')))
+                v = c01.draw_write(rnd, cur.get(a, dag.cell[a].get('v')), dag.cell[a].get('w'))
             cur[a] = v
             ops.append({'op': 'set', 'a': a, 'v': v, 'over_formula': True, 'pre_trim': True})
     first_inputs = list(inputs)
@@ -172,7 +176,7 @@ def gen_case(rnd, tier, index):
             if wbgen.is_formula_cell(dag.cell[a]):
                 v = draw_num(rnd)
             else:
-                v = c01.draw_write(rnd, cur.get(a, dag.cell[a].get('v')))
+                v = c01.draw_write(rnd, cur.get(a, dag.cell[a].get('v')), dag.cell[a].get('w'))
             cur[a] = v
             ops.append({'op': 'set', 'a': a, 'v': v, 'over_formula': True})
         else:
